@@ -247,9 +247,22 @@ class VTKWriter:
     def _write_cell_fields(self, vtkFile):
         allFieldsAreEmpty = not self.cellFields
         if not allFieldsAreEmpty:
-            ncells = self.mesh.conns.shape[0]
+            # contact edges are written as cells too: every cell array needs a
+            # (default) record for each of them
+            ncells = self.mesh.conns.shape[0] + self.contactEdges.shape[0]
+            fieldsToWrite = {}
+            for field in self.cellFields:
+                fieldRecord = self.cellFields[field]
+                for edge in self.contactEdges:
+                    uNew = np.vstack( (fieldRecord.data,
+                                       default_values(fieldRecord.fieldType, fieldRecord.dataType)) )
+                    fieldRecord = self.VTKFieldRecord(uNew,
+                                                      fieldRecord.fieldType,
+                                                      fieldRecord.dataType)
+                fieldsToWrite[field] = fieldRecord
+
             vtkFile.write('CELL_DATA {}\n'.format(ncells))
-            self._write_out_all_fields_in_dict(self.cellFields, vtkFile)
+            self._write_out_all_fields_in_dict(fieldsToWrite, vtkFile)
         
         
     def _write_out_all_fields_in_dict(self, fieldDict, vtkFile):
